@@ -190,6 +190,125 @@ fn kd6_stored_tiny_pending() {
     stored_one_call::<2, 20, 4, 2, 8, 6>();
 }
 
+/// flush tail (C11): three bytes buffered by an earlier Z_NO_FLUSH call, no new input, a sync or full flush with any
+/// output space 0..=12 - in particular too little for the block header plus what is buffered.  `BlockDone` (after which
+/// deflate() writes the 00 00 FF FF marker) is only reported once nothing supplied so far is still waiting in the window.
+#[kani::proof]
+#[kani::unwind(10)]
+#[kani::stub(core::fmt::write, stub_fmt_write)]
+#[kani::stub(core::panicking::panic_nounwind, stub_pn)]
+#[kani::stub(core::panicking::panic_nounwind_fmt, stub_pnf)]
+fn kd6_stored_flush_tail_k3() {
+    let mut w = [0u8; 2 << WB0];
+    let mut p = [0u16; 1 << WB0];
+    let mut h = [0u16; HASH_SIZE];
+    let mut pe = [MaybeUninit::new(0u8); 64];
+    let mut sy = [0u8; 48];
+    let mut state = typed_state(&mut w, &mut p, &mut h, &mut pe, &mut sy, WB0, 16, 0, 0, Strategy::Default);
+    state.status = Status::Busy;
+    state.window_size = 2 << WB0;
+    state.last_flush = -2;
+    let buffered: [u8; 3] = kani::any();
+    let k: usize = 3; // concrete: a symbolic count of buffered bytes ran out of memory at 12 GB
+    let mut i = 0;
+    while i < 3 {
+        if i < k {
+            state.window.filled_mut()[i] = buffered[i];
+        }
+        i += 1;
+    }
+    state.strstart = k;
+    state.insert = k;
+    state.block_start = 0;
+    let mut stream = typed_stream(unsafe { &mut *(&mut state as *mut State) });
+    stream.total_in = k as _;
+    let input = [0u8; 1];
+    let mut out = [0u8; 14];
+    let avail_out: u32 = kani::any();
+    kani::assume(avail_out <= 12);
+    let flush = if kani::any() { DeflateFlush::SyncFlush } else { DeflateFlush::FullFlush };
+    stream.next_in = input.as_ptr() as *mut u8;
+    stream.avail_in = 0;
+    stream.next_out = out.as_mut_ptr();
+    stream.avail_out = avail_out;
+    let bs = self::algorithm::run(&mut stream, flush);
+    let produced = (avail_out - stream.avail_out) as usize;
+    let pending = stream.state.bit_writer.pending.pending().len();
+    let in_window = stream.state.strstart as isize - stream.state.block_start;
+    assert!(in_window >= 0 && in_window as usize <= k);
+    match bs {
+        BlockState::BlockDone => {
+            assert!(in_window == 0, "flush point reported while supplied input is still waiting in the window");
+            assert!(pending == 0, "flush point reported while block bytes are still pending");
+            if k > 0 {
+                assert!(produced == 5 + k && out[0] == 0 && out[1] == k as u8 && out[2] == 0 && out[3] == !(k as u8) && out[4] == 0xff);
+                let j: usize = kani::any();
+                kani::assume(j < k);
+                assert!(out[5 + j] == buffered[j]);
+            } else {
+                assert!(produced == 0);
+            }
+        }
+        BlockState::NeedMore => {
+            assert!(stream.avail_out == 0 || in_window > 0 || pending > 0);
+        }
+        _ => panic!("a flush call neither finishes the stream nor starts to"),
+    }
+    kani::cover!(matches!(bs, BlockState::BlockDone) && k == 3);
+    kani::cover!(matches!(bs, BlockState::NeedMore) && k == 3 && avail_out == 6);
+    core::mem::forget(stream);
+    core::mem::forget(state);
+}
+
+/// window history (C01, C13): after a level-0 call that copied more than a window's worth of input straight to the output,
+/// the window holds the LAST w_size bytes taken in, ending at strstart - that is what the match finder uses as history once
+/// deflateParams() leaves level 0, and what deflateGetDictionary reports.  18 symbolic input bytes into a 16-byte window,
+/// output space for a block of 16, 17 or 18 bytes (the rest is buffered by read_buf_window).
+#[kani::proof]
+#[kani::unwind(6)]
+#[kani::stub(core::fmt::write, stub_fmt_write)]
+#[kani::stub(core::panicking::panic_nounwind, stub_pn)]
+#[kani::stub(core::panicking::panic_nounwind_fmt, stub_pnf)]
+fn kd6_stored_window_holds_the_latest_input() {
+    let mut w = [0u8; 2 << WB0];
+    let mut p = [0u16; 1 << WB0];
+    let mut h = [0u16; HASH_SIZE];
+    let mut pe = [MaybeUninit::new(0u8); 64];
+    let mut sy = [0u8; 48];
+    let mut state = typed_state(&mut w, &mut p, &mut h, &mut pe, &mut sy, WB0, 16, 0, 0, Strategy::Default);
+    state.status = Status::Busy;
+    state.window_size = 2 << WB0;
+    state.last_flush = -2;
+    state.strstart = 0;
+    state.insert = 0;
+    state.block_start = 0;
+    let mut stream = typed_stream(unsafe { &mut *(&mut state as *mut State) });
+    const N: usize = 18;
+    let input: [u8; N] = kani::any();
+    let mut out = [0u8; 32];
+    let avail_out: u32 = kani::any();
+    kani::assume(avail_out >= 21 && avail_out <= 24);
+    let flush = if kani::any() { DeflateFlush::NoFlush } else { DeflateFlush::SyncFlush };
+    stream.next_in = input.as_ptr() as *mut u8;
+    stream.avail_in = N as u32;
+    stream.next_out = out.as_mut_ptr();
+    stream.avail_out = avail_out;
+    let _bs = self::algorithm::run(&mut stream, flush);
+    let consumed = N - stream.avail_in as usize;
+    let s = stream.state.strstart;
+    let hist = if consumed < 16 { consumed } else { 16 };
+    assert!(consumed >= 16, "a block of at least w_size bytes fits the output");
+    assert!(s >= hist && s <= 2 << WB0, "the window holds min(bytes taken in, w_size) bytes of history below strstart");
+    let i: usize = kani::any();
+    kani::assume(i < hist);
+    assert!(stream.state.window.filled()[s - 1 - i] == input[consumed - 1 - i], "window history = the most recent input, in order");
+    assert!(stream.state.block_start <= s as isize && stream.state.insert <= s);
+    kani::cover!(consumed == 18 && s == 16);
+    kani::cover!(consumed == 18 && s == 18);
+    core::mem::forget(stream);
+    core::mem::forget(state);
+}
+
 // ---------------------------------------------------------------------------------------------
 // production sizes: the stored block built in the pending buffer when the output is (nearly) full.  With memLevel 9 the
 // pending buffer (128 KiB) is larger than the 64 KiB window, so the only thing that keeps the block within the 16-bit LEN
